@@ -30,7 +30,12 @@ def run(res):
         "Fixpoint nl_eqb (a b : list N) : bool := match a, b with [], [] => true | x :: a', y :: b' => (x =? y) && nl_eqb a' b' | _, _ => false end.\n"
         "Definition id_ok (c : list idop * list N) : bool := nl_eqb (id_run {| a_used := []; a_next := 0 |} (fst c)) (snd c).\n"
         "Definition bad_ids := Eval vm_compute in bad_idx id_ok id_cases.\nPrint bad_ids.\n"
-        "Definition nget := Eval vm_compute in N.of_nat (length (flat_map snd id_cases)).\nPrint nget.\n")
+        "Definition nget := Eval vm_compute in N.of_nat (length (flat_map snd id_cases)).\nPrint nget.\n"
+        "(* the ID of a pipe whose Detached callback is still running is given to no new pipe, although the counter stands on it (at least\n"
+        "   four new pipes: both ends of two connections); once the callback has returned it is free again and the positioned counter hands it out *)\n"
+        "Definition life_ok (c : N * list N * list N) : bool := let '(x, during, after) := c in\n"
+        "  (0 <? x) && (4 <=? N.of_nat (length during)) && negb (existsb (N.eqb x) during) && existsb (N.eqb x) after.\n"
+        "Definition bad_life := Eval vm_compute in bad_idx life_ok life_cases.\nPrint bad_life.\n")
     if out is None:
         res.violation("ids:harness-abort", "the pipe ID allocator harness did not complete on the current tree (rc=%d): %s" % (rc, se[-600:]),
                       {"stderr": se[-3000:]}, found_input=("panic:" in se))
@@ -39,6 +44,15 @@ def run(res):
         its = items(open(defs).read(), "id_cases")
         res.coverage["pipe_id_allocator_cases"] = len(its)
         res.coverage["pipe_ids_allocated_and_compared"] = core.parse_printed(out, "nget")
+        lits = items(open(defs).read(), "life_cases")
+        res.coverage["pipe_id_lifetime_cases"] = len(lits)
+        for i in (core.parse_nlist(core.parse_printed(out, "bad_life")) or [])[:3]:
+            res.violation("ids:lifetime", "a pipe's ID was given to a new pipe while that pipe's Detached callback was still running (or the scenario could not be driven): "
+                          "(the ID, IDs handed to new pipes during the callback with the counter positioned on it, IDs handed out after the callback returned) = %s"
+                          % (lits[i][:600] if i < len(lits) else "?"),
+                          {"case": lits[i][:3000] if i < len(lits) else "?", "how": "harness/cmd/c13ids lifeCase: PULL listener (inproc/tcp/ipc) with a pipe event hook blocking in Detached; "
+                           "protocol.VerifPipeIDSetNext(id); two PUSH peers dial; release; VerifPipeIDSetNext(id); one more peer",
+                           "theorem": "Props/C13.v (ids of live pipes are distinct; a pipe is live until its Detached callback has returned)"})
         for i in (core.parse_nlist(core.parse_printed(out, "bad_ids")) or [])[:3]:
             res.violation("ids:allocator", "the pipe IDs handed out by the allocator for this sequence of counter positions / allocations / releases differ from Model/PipeId.v "
                           "(zero, a 32-bit value, an ID still in use, or simply another ID)",
